@@ -40,6 +40,8 @@ func (s *Service) Attest(ctx context.Context, duty *attester.Duty) ([]*phase0.At
 	span.SetAttributes(attribute.Int64("slot", util.SlotToInt64(duty.Slot())))
 
 	validatorIndices := s.fetchValidatorIndices(ctx, duty)
+	// Tidy up the record of earlier epochs however this run ends, not only when it succeeds.
+	defer s.housekeepAttestedMap(ctx, duty)
 
 	// Fetch the attestation data.
 	startOfSlot := s.chainTime.StartOfSlot(duty.Slot())
@@ -298,6 +300,12 @@ func (s *Service) housekeepAttestedMap(_ context.Context,
 	if epoch > 1 {
 		s.attestedMu.Lock()
 		delete(s.attested, epoch-2)
+		// Epochs in which no run completed leave their entries behind: remove everything older as well.
+		for attestedEpoch := range s.attested {
+			if attestedEpoch+2 < epoch {
+				delete(s.attested, attestedEpoch)
+			}
+		}
 		s.attestedMu.Unlock()
 	}
 }
